@@ -41,6 +41,7 @@ type Engine struct {
 	closures   []closureInfo
 	ifaceSrcList []types.Type
 	cleanResult  map[string]bool
+	globalFacts  map[string][]string // "pkgpath.Var" -> spec functions assumed to hold of its value
 }
 
 func debugObject(d *ssa.DebugRef) types.Object { return d.Object() }
@@ -197,6 +198,15 @@ func (e *Engine) Load(patterns []string) error {
 				}
 				for _, n := range strings.Fields(strings.TrimPrefix(line, "// verif-cleanresult ")) {
 					e.cleanResult[n] = true
+				}
+			}
+			if strings.HasPrefix(line, "// verif-globalfact ") {
+				fs := strings.Fields(strings.TrimPrefix(line, "// verif-globalfact "))
+				if len(fs) == 2 {
+					if e.globalFacts == nil {
+						e.globalFacts = map[string][]string{}
+					}
+					e.globalFacts[fs[0]] = append(e.globalFacts[fs[0]], fs[1])
 				}
 			}
 			if strings.HasPrefix(line, "// verif-pure ") {
